@@ -88,6 +88,8 @@ class Estimator(object):
         ub, lb = val(), -val()
         if k < 0.1:
             ub = -abs(ub)
+        if len(self.calls) < 3:      # keep every walker's total positive (at least one positive rate per direction)
+            ub, lb = 0.25 + self.rng.random(), -0.25 - self.rng.random()
         self.calls.append([[f2b(x) for x in lower_corner], [f2b(x) for x in upper_corner], direction, f2b(ub), f2b(lb)])
         return ub, lb
 
